@@ -79,43 +79,49 @@ def sizedLen : V → Option Nat
   | .dict es => some es.length
   | _ => none
 
+/-- `e > 0` -/
+def posRes (e : V) : PredRes :=
+  match pyCmp .gt e (.int 0) with
+  | some b => .ret (.bool b)
+  | none => .raise "TypeError"
+
 /-- `lambda t: t[i] > 0` -/
 def nthPos (i : Nat) (x : V) : PredRes :=
-  let cmp := fun (e : V) =>
-    match pyCmp .gt e (.int 0) with
-    | some b => PredRes.ret (.bool b)
-    | none => .raise "TypeError"
   match x with
-  | .tuple xs | .list xs => (match xs[i]? with | some e => cmp e | none => .raise "IndexError")
+  | .tuple xs | .list xs => (match xs[i]? with | some e => posRes e | none => .raise "IndexError")
   | .str s => (match s.toList[i]? with | some _ => .raise "TypeError" | none => .raise "IndexError")
   | .dict es =>
     (match es.find? (fun e => pyEq e.1 (.int i)) with
-     | some e => cmp e.2
+     | some e => posRes e.2
      | none => .raise "KeyError")
   | _ => .raise "TypeError"
 
+def lenLt3 (x : V) : PredRes :=
+  match sizedLen x with
+  | some n => .ret (.bool (n < 3))
+  | none => .raise "TypeError"
+
 /-- each name has a Python definition in harness/props/c10.py (`PREDS`) -/
+def predTable : List (String × (V → PredRes)) :=
+  [("nth0_pos", nthPos 0), ("nth1_pos", nthPos 1), ("nth2_pos", nthPos 2), ("nth3_pos", nthPos 3),
+   ("truthy", fun x => .ret (.bool (truthy x))),
+   ("is_pos", posRes),
+   ("is_str", fun x => .ret (.bool (x.cls == "str"))),
+   ("always", fun _ => .ret (.bool true)),
+   ("never", fun _ => .ret (.bool false)),
+   ("ret_none", fun _ => .ret .none),
+   ("ret_zero", fun _ => .ret (.int 0)),
+   ("ret_one", fun _ => .ret (.int 1)),
+   ("ret_empty", fun _ => .ret (.str "")),
+   ("echo", fun x => .ret x),
+   ("len_lt3", lenLt3),
+   ("raises_value", fun _ => .raise "ValueError"),
+   ("raises_glom", fun _ => .raise "GlomError")]
+
 def predApply (fn : String) (x : V) : PredRes :=
-  if fn == "nth0_pos" then nthPos 0 x
-  else if fn == "nth1_pos" then nthPos 1 x
-  else if fn == "nth2_pos" then nthPos 2 x
-  else if fn == "nth3_pos" then nthPos 3 x
-  else if fn == "truthy" then .ret (.bool (truthy x))
-  else if fn == "is_pos" then
-    (match pyCmp .gt x (.int 0) with | some b => .ret (.bool b) | none => .raise "TypeError")
-  else if fn == "is_str" then .ret (.bool (x.cls == "str"))
-  else if fn == "always" then .ret (.bool true)
-  else if fn == "never" then .ret (.bool false)
-  else if fn == "ret_none" then .ret .none
-  else if fn == "ret_zero" then .ret (.int 0)
-  else if fn == "ret_one" then .ret (.int 1)
-  else if fn == "ret_empty" then .ret (.str "")
-  else if fn == "echo" then .ret x
-  else if fn == "len_lt3" then
-    (match sizedLen x with | some n => .ret (.bool (n < 3)) | none => .raise "TypeError")
-  else if fn == "raises_value" then .raise "ValueError"
-  else if fn == "raises_glom" then .raise "GlomError"
-  else .raise "NameError"
+  match predTable.lookup fn with
+  | some f => f x
+  | none => .raise "NameError"
 
 /-! ### spec objects -/
 
@@ -334,41 +340,47 @@ inductive ValidRes where
   | raise (e : PyExc)       -- a validator raised something `except Exception` does not catch
   deriving Repr, DecidableEq
 
+/-- continue the loop after a validator that appended `extra` messages and logged `pre` -/
+def addErrs (extra : Nat) (pre : Log) (r : ValidRes × Log) : ValidRes × Log :=
+  (match r.1 with
+   | .errs n => .errs (n + extra)
+   | other => other, pre ++ r.2)
+
 def runValidators (env : Env) (dflt : Option Arg) : List Fn → V → ValidRes × Log
   | [], _ => (.errs 0, [])
   | f :: fs, t =>
-    let more := fun (extra : Nat) =>
-      let r := runValidators env dflt fs t
-      (match r.1 with
-       | .errs n => (ValidRes.errs (n + extra), fnLog f ++ r.2)
-       | other => (other, fnLog f ++ r.2))
     match predApply f.2 t with
     | .ret (.bool false) =>        -- `res is False` → _ValidationError → caught below
       (match dflt with
        | some d => (.ret (rawDefault d), fnLog f)
-       | none => more 1)
-    | .ret _ => more 0
+       | none => addErrs 1 (fnLog f) (runValidators env dflt fs t))
+    | .ret _ => addErrs 0 (fnLog f) (runValidators env dflt fs t)
     | .raise c =>
-      if catchesAt env "Check.glomit" 0 ⟨c⟩ then more 1 else (.raise ⟨c⟩, fnLog f)
+      if catchesAt env "Check.glomit" 0 ⟨c⟩ then addErrs 1 (fnLog f) (runValidators env dflt fs t)
+      else (.raise ⟨c⟩, fnLog f)
+
+/-- the body of `Check.glomit` once the subject `t` is known (`t0` = the original target, returned) -/
+def checkOn (env : Env) (o : CheckObj) (t t0 : V) : Out :=
+  let typeBad := !o.types.isEmpty && !o.types.contains t.cls
+  if typeBad && o.default.isSome then (argVal (o.default.getD (.const .none)) t, []) else
+  let valsBad := !o.vals.isEmpty && !pyIn t o.vals
+  if valsBad && o.default.isSome then (argVal (o.default.getD (.const .none)) t, []) else
+  let vr := runValidators env o.default o.validators t
+  match vr.1 with
+  | .ret v => (.ok v, vr.2)
+  | .raise e => (.error e, vr.2)
+  | .errs n =>
+    let instBad := !o.instanceOf.isEmpty && !o.instanceOf.any (fun c => isInst env.cls t c)
+    if instBad && o.default.isSome then (argVal (o.default.getD (.const .none)) t, vr.2) else
+    let nerrs := (if typeBad then 1 else 0) + (if valsBad then 1 else 0) + n + (if instBad then 1 else 0)
+    if nerrs > 0 then (.error (raiseAt env "Check.glomit" 1), vr.2)
+    else (.ok t0, vr.2)
 
 def checkGlomit (env : Env) (o : CheckObj) (t0 : V) : Out :=
+  -- `if self.spec is not T: target = scope[glom](target, self.spec, scope)`
   match (match o.spec with | none => Except.ok t0 | some e => tRes e t0) with
   | .error e => (.error e, [])
-  | .ok t =>
-    let typeBad := !o.types.isEmpty && !o.types.contains t.cls
-    if typeBad && o.default.isSome then (argVal (o.default.getD (.const .none)) t, []) else
-    let valsBad := !o.vals.isEmpty && !pyIn t o.vals
-    if valsBad && o.default.isSome then (argVal (o.default.getD (.const .none)) t, []) else
-    let vr := runValidators env o.default o.validators t
-    match vr.1 with
-    | .ret v => (.ok v, vr.2)
-    | .raise e => (.error e, vr.2)
-    | .errs n =>
-      let instBad := !o.instanceOf.isEmpty && !o.instanceOf.any (fun c => isInst env.cls t c)
-      if instBad && o.default.isSome then (argVal (o.default.getD (.const .none)) t, vr.2) else
-      let nerrs := (if typeBad then 1 else 0) + (if valsBad then 1 else 0) + n + (if instBad then 1 else 0)
-      if nerrs > 0 then (.error (raiseAt env "Check.glomit" 1), vr.2)
-      else (.ok t0, vr.2)
+  | .ok t => checkOn env o t t0
 
 /-! ### Regex (catalogue engine: sequences of character classes, each once or `+`) -/
 
